@@ -12,6 +12,7 @@ import (
 
 	"github.com/compose-spec/compose-go/v2/dotenv"
 	"github.com/compose-spec/compose-go/v2/types"
+	"gopkg.in/yaml.v3"
 	"pgregory.net/rapid"
 )
 
@@ -144,6 +145,109 @@ func recordNonZeroFields(c *Ctx, v reflect.Value) {
 	}
 }
 
+// sourceAttributesBound is an absolute oracle next to the round trip: every attribute written in the
+// source document must be bound to the model field carrying that YAML name, scalars with their value.
+func sourceAttributesBound(doc string, p *types.Project) *Failure {
+	var src map[string]any
+	if err := yaml.Unmarshal([]byte(doc), &src); err != nil {
+		return nil
+	}
+	check := func(kind, name string, attrs map[string]any, v reflect.Value) *Failure {
+		t := v.Type()
+		for key, val := range attrs {
+			if strings.HasPrefix(key, "x-") || key == "extends" || key == "external" {
+				continue
+			}
+			idx := -1
+			for i := 0; i < t.NumField(); i++ {
+				tag := strings.Split(t.Field(i).Tag.Get("yaml"), ",")[0]
+				if tag == key {
+					idx = i
+				}
+			}
+			if idx < 0 {
+				return failf("c09:attribute-has-no-field:"+kind+"."+key, "%s %s: attribute %q of the source document has no field with that YAML name in %s", kind, name, key, t.Name())
+			}
+			f := v.Field(idx)
+			for f.Kind() == reflect.Ptr && !f.IsNil() {
+				f = f.Elem()
+			}
+			zeroLike := val == nil || val == false || val == 0 || val == ""
+			if l, ok := val.([]any); ok && len(l) == 0 {
+				zeroLike = true
+			}
+			if m, ok := val.(map[string]any); ok && len(m) == 0 {
+				zeroLike = true
+			}
+			if !zeroLike && f.IsZero() {
+				return failf("c09:attribute-not-bound:"+kind+"."+key, "%s %s: attribute %q = %v of the source document is not in the loaded model", kind, name, key, val)
+			}
+			switch sv := val.(type) {
+			case string:
+				if f.Kind() == reflect.String && f.String() != sv && key != "name" && !strings.Contains(sv, "/") && !strings.Contains(sv, "$") && key != "pull_policy" && key != "file" && key != "context" && key != "dockerfile" {
+					return failf("c09:attribute-value-differs:"+kind+"."+key, "%s %s: %q is %q in the model, %q in the source", kind, name, key, f.String(), sv)
+				}
+			case bool:
+				if f.Kind() == reflect.Bool && f.Bool() != sv {
+					return failf("c09:attribute-value-differs:"+kind+"."+key, "%s %s: %q is %v in the model, %v in the source", kind, name, key, f.Bool(), sv)
+				}
+			case int:
+				if (f.Kind() == reflect.Int || f.Kind() == reflect.Int64 || f.Kind() == reflect.Int32) && f.Int() != int64(sv) {
+					return failf("c09:attribute-value-differs:"+kind+"."+key, "%s %s: %q is %v in the model, %v in the source", kind, name, key, f.Int(), sv)
+				}
+			}
+		}
+		return nil
+	}
+	if svcs, ok := src["services"].(map[string]any); ok {
+		for name, a := range svcs {
+			am, _ := a.(map[string]any)
+			s, ok := p.AllServices()[name]
+			if !ok || am == nil {
+				continue
+			}
+			if f := check("service", name, am, reflect.ValueOf(s)); f != nil {
+				return f
+			}
+			if b, ok := am["build"].(map[string]any); ok && s.Build != nil {
+				if f := check("build", name, b, reflect.ValueOf(*s.Build)); f != nil {
+					return f
+				}
+			}
+			if d, ok := am["deploy"].(map[string]any); ok && s.Deploy != nil {
+				if f := check("deploy", name, d, reflect.ValueOf(*s.Deploy)); f != nil {
+					return f
+				}
+			}
+			if h, ok := am["healthcheck"].(map[string]any); ok && s.HealthCheck != nil {
+				if f := check("healthcheck", name, h, reflect.ValueOf(*s.HealthCheck)); f != nil {
+					return f
+				}
+			}
+		}
+	}
+	for kind, get := range map[string]func(string) (reflect.Value, bool){
+		"networks": func(n string) (reflect.Value, bool) { v, ok := p.Networks[n]; return reflect.ValueOf(v), ok },
+		"volumes":  func(n string) (reflect.Value, bool) { v, ok := p.Volumes[n]; return reflect.ValueOf(v), ok },
+		"secrets":  func(n string) (reflect.Value, bool) { v, ok := p.Secrets[n]; return reflect.ValueOf(v), ok },
+		"configs":  func(n string) (reflect.Value, bool) { v, ok := p.Configs[n]; return reflect.ValueOf(v), ok },
+	} {
+		if sec, ok := src[kind].(map[string]any); ok {
+			for name, a := range sec {
+				am, _ := a.(map[string]any)
+				v, ok := get(name)
+				if !ok || am == nil {
+					continue
+				}
+				if f := check(kind, name, am, v); f != nil {
+					return f
+				}
+			}
+		}
+	}
+	return nil
+}
+
 func customMarshalled(p *types.Project) bool {
 	for _, s := range p.Services {
 		if s.StopGracePeriod != nil || s.MemLimit != 0 || s.ShmSize != 0 || len(s.Ulimits) > 0 || len(s.EnvFiles) > 0 || len(s.ExtraHosts) > 0 || len(s.Command) > 0 ||
@@ -175,6 +279,9 @@ func c09Check(c *Ctx, cs c09Case) *Failure {
 	}
 	p := r.Project
 	recordNonZeroFields(c, reflect.ValueOf(p))
+	if f := sourceAttributesBound(cs.Doc, p); f != nil {
+		return f
+	}
 	if customMarshalled(p) {
 		c.NonTrivial(jsonKey(cs), map[string]any{"doc": cs.Doc, "opts": cs.Opts, "json": cs.JSON})
 	}
